@@ -7,7 +7,8 @@ Request (one line):
 `render n=N c=C padn=.. padd=.. ext=.. align=0|1 [var=sin] [labels=<lab>;<lab>;…;] ops=<op>/<op>/…`
 
 * `padn/padd` = `gate_pad` as an exact fraction (`padn` may be negative, `gate_pad ≤ -1` is refused: `bad-op`)
-* `var=` four digits: spanFix, insideNode, globalBox, measBox of `Render.Variant` (three digits: measBox = 0; absent = `0000`, the shipped tree)
+* `var=` five digits: spanFix, insideNode, globalBox, measBox, resetLayout of `Render.Variant` (missing digits = 0; absent = the shipped tree)
+* `render2 … ops0=<ops> ops=<ops>`: the second `layout()` of one renderer object (first call on `ops0`, second on `ops`)
 
 * a string is the list of its code points in decimal joined by `.` (empty string = nothing)
 * `labels=` : every label is *terminated* by `;` (`labels=` is the empty list, key absent = `None`)
@@ -71,6 +72,10 @@ def parseVariant (s : String) : Option Variant :=
     if [a, b, c, d].all (fun x => x = '0' || x = '1') then
       some { spanFix := a = '1', insideNode := b = '1', globalBox := c = '1', measBox := d = '1' }
     else none
+  | [a, b, c, d, e] =>
+    if [a, b, c, d, e].all (fun x => x = '0' || x = '1') then
+      some { spanFix := a = '1', insideNode := b = '1', globalBox := c = '1', measBox := d = '1', resetLayout := e = '1' }
+    else none
   | _ => none
 
 def parseReq (fs : List String) : Option (Variant × Style × Circ) := do
@@ -103,6 +108,14 @@ def step (line : String) : String :=
       match render v sty c with
       | .ok rows => "ok " ++ "|".intercalate (rows.map showStr)
       | .error e => "err " ++ errName e
+  | some "render2" =>
+    -- the second `layout()` of one renderer object; `ops0=` is the circuit at the first call
+    match parseReq fs, parseOps ((field? fs "ops0").getD "") with
+    | some (v, sty, c), some ops0 =>
+      match render2 v sty { c with ops := ops0 } c with
+      | .ok rows => "ok " ++ "|".intercalate (rows.map showStr)
+      | .error e => "err " ++ errName e
+    | _, _ => "bad-op"
   | some "widths" =>
     match parseReq fs with
     | none => "bad-op"
